@@ -111,12 +111,15 @@ theorem commit_long_fork (s : St) (p : Nat) (nps : ProveState) (td : Nat)
     commitProveState s p nps = .ok (.ok (s, false)) := by
   rw [commitProveState_heavier s p nps td htd hlt, hf]
 
-/-- the tip is stored without a rollback only if the chain is not reorganised (or the special
-case of a stored tip at block 1, which is always rolled back) -/
+/-- the tip is stored without a rollback only if the chain is not reorganised for the store (no
+remembered header is contradicted, or - with reorg headers of the peer's own previous state - the
+stored tip is one of the new last headers); a stored tip at block 1 without reorg headers is always
+rolled back -/
 theorem no_silent_adoption (s s' : St) (p : Nat) (nps : ProveState) (td : Nat)
     (htd : nps.last.td = .ok td) (hlt : s.stored.td < td)
     (h : commitProveState s p nps = .ok (.ok (s', true)))
-    (hrb : s'.rollbacks = s.rollbacks) : forkOf s nps = none ∧ s.stored.tip.number ≠ 1 := by
+    (hrb : s'.rollbacks = s.rollbacks) :
+    forkOf s nps = none ∧ (nps.reorgLast = [] → s.stored.tip.number ≠ 1) := by
   rw [commitProveState_heavier s p nps td htd hlt] at h
   have hne : ∀ (l : List Nat) (a : Nat), l ++ [a] ≠ l := by
     intro l a hl
@@ -126,17 +129,10 @@ theorem no_silent_adoption (s s' : St) (p : Nat) (nps : ProveState) (td : Nat)
   | none =>
     rw [hf] at h
     refine ⟨rfl, ?_⟩
-    intro h1
+    intro hnil h1
     obtain ⟨-, hrb', -⟩ := commitTailF_ok h
     rw [hrb'] at hrb
-    have hre : nps.reorgLast.isEmpty = true := by
-      cases hrl : nps.reorgLast with
-      | nil => rfl
-      | cons a t =>
-        exfalso
-        unfold forkOf at hf
-        rw [hrl] at hf
-        simp at hf
+    have hre : nps.reorgLast.isEmpty = true := by rw [hnil]; rfl
     simp only [hre, h1, Bool.true_and, decide_true, if_true] at hrb
     exact hne _ _ hrb
   | some o =>
@@ -153,7 +149,7 @@ def oldForkOf (s : St) (nps : ProveState) : Option (Option Nat) :=
   if nps.reorgLast.isEmpty then none
   else
     some (nps.reorgLast.reverse.findSome? (fun rh =>
-      match s.stored.lastN.find? (·.1 = rh.number) with
+      match s.stored.lastN.reverse.find? (·.1 = rh.number) with
       | some (_, hash) => if hash = rh.hid then some rh.number else none
       | none => none))
 
@@ -167,6 +163,51 @@ theorem old_rule_adopts_silently :
     let nps : ProveState := ⟨vh 81 8 71, [], [vh 50 5 40, vh 61 6 50, vh 71 7 61]⟩
     oldForkOf s nps = none ∧ forkOf s nps = some (some 5) := by
   decide
+
+/-- the reorg headers of a proof belong to the previous prove state of the peer that sent it: if
+none of them is remembered but the stored tip is one of the new last headers (another peer has
+moved the store to the new chain already), the store is not on a fork -/
+theorem stored_tip_on_new_chain_is_no_fork (s : St) (nps : ProveState)
+    (hr : nps.reorgLast ≠ [])
+    (hno : ∀ rh ∈ nps.reorgLast, ∀ e, s.stored.lastN.reverse.find? (·.1 = rh.number) = some e → e.2 ≠ rh.hid)
+    (hon : ∃ h ∈ newTop nps, h.hid = s.stored.tip.hid) : forkOf s nps = none := by
+  unfold forkOf
+  have hre : nps.reorgLast.isEmpty = false := by
+    cases hl : nps.reorgLast with
+    | nil => exact absurd hl hr
+    | cons a t => rfl
+  simp only [hre, Bool.false_eq_true, if_false]
+  obtain ⟨h, hm, hh⟩ := hon
+  have hany : (nps.lastHeaders ++ [nps.last]).any (fun h => decide (h.hid = s.stored.tip.hid)) = true := by
+    rw [List.any_eq_true]
+    exact ⟨h, hm, by simpa using hh⟩
+  have key : ∀ (fs : Option Nat), fs = none →
+      (if (fs.isNone && (nps.lastHeaders ++ [nps.last]).any (fun h => decide (h.hid = s.stored.tip.hid))) = true
+        then (none : Option (Option Nat)) else some fs) = none := by
+    intro fs hfs
+    subst hfs
+    simp [hany]
+  apply key
+  rw [List.findSome?_eq_none_iff]
+  intro rh hm
+  have hm' : rh ∈ nps.reorgLast := by simpa using hm
+  cases hf : s.stored.lastN.reverse.find? (·.1 = rh.number) with
+  | none => simp
+  | some e =>
+    obtain ⟨n, hash⟩ := e
+    have := hno rh hm' (n, hash) hf
+    simp only at this
+    simp [this]
+
+/-- before the repair this was taken for a long fork (which ends in the deliberate abort): peer 1
+has moved the store to the new branch (tip 9 at hash 91 after 7, 8), peer 2 - still on the old
+one - proves tip 10 with reorg headers 4, 5, 6 of its own previous state -/
+theorem lagging_peer_is_no_long_fork :
+    let s : St := { initSt with stored := ⟨100, vh 91 9 81, [(6, 61), (7, 71), (8, 81)]⟩ }
+    let nps : ProveState := ⟨vh 101 10 91, [vh 40 4 30, vh 50 5 40, vh 60 6 50], [vh 71 7 61, vh 81 8 71, vh 91 9 81]⟩
+    oldForkOf s nps = some none ∧ forkOf s nps = none := by
+  decide
+
 
 end detection
 
